@@ -476,7 +476,7 @@ def run(tier="quick", seed=0, repo="/repo"):
                                    "shift": shift, "build": build}
                             nt = check_outliers(rec, inp)
                             rec.case(("outliers", rows, p, k, size, shift, build), nt, inp if (rows, p, k, shift) == (4, 2, 2, 0) else None)
-    return rec.result(RULE, f"n <= {nmax}, p <= 3, seeds 0..4, all position lists (see module docstring); add_linspace_outliers rows <= 8",
+    return rec.result(RULE, f"n <= {nmax}, p <= 3, seeds 0..4, all position lists (see module docstring); generate_alternating_data also with k of p columns requested as a two-digit decimal, p in {{4,10,20,25,50,100}}; add_linspace_outliers rows <= 8",
                       exhaustive=True)
 
 
